@@ -41,6 +41,7 @@ void civil_from_days(long long z, int& y, int& m, int& d) {
 }
 
 std::string Kw::text() const {
+    if (!raw.empty()) return raw;
     std::string s = name + "\n";
     for (auto& r : recs) { s += " "; for (auto& t : r) { s += " "; s += t; } s += " /\n"; }
     if (terminated) s += "/\n";
@@ -66,7 +67,7 @@ sim::Json GenOpts::to_json() const {
     j["allow_msw"] = allow_msw; j["allow_history"] = allow_history; j["allow_groups"] = allow_groups;
     j["restart_safe_conditions"] = restart_safe_conditions; j["nonmidnight"] = nonmidnight; j["step_events"] = step_events;
     j["action_inline_safe"] = action_inline_safe; j["vector_target"] = vector_target; j["units"] = units;
-    j["fmtout"] = fmtout; j["unifout"] = unifout; j["esmry"] = esmry; j["rptonly"] = rptonly; j["sumthin"] = sumthin; j["date_conditions"] = date_conditions; j["nested_parens"] = nested_parens; j["stop_safe"] = stop_safe; j["weltarg_safe"] = weltarg_safe; j["cond_well_bias"] = cond_well_bias; j["min_wells"] = min_wells; j["reparent_groups"] = reparent_groups; j["late_edits"] = late_edits; j["geo_kws"] = geo_kws; j["tuning_vfp"] = tuning_vfp; j["udq_unary_minus"] = udq_unary_minus;
+    j["fmtout"] = fmtout; j["unifout"] = unifout; j["esmry"] = esmry; j["rptonly"] = rptonly; j["sumthin"] = sumthin; j["date_conditions"] = date_conditions; j["nested_parens"] = nested_parens; j["stop_safe"] = stop_safe; j["weltarg_safe"] = weltarg_safe; j["cond_well_bias"] = cond_well_bias; j["min_wells"] = min_wells; j["reparent_groups"] = reparent_groups; j["late_edits"] = late_edits; j["geo_kws"] = geo_kws; j["family_snippets"] = family_snippets; j["family_static_free"] = family_static_free; j["tuning_vfp"] = tuning_vfp; j["udq_unary_minus"] = udq_unary_minus;
     return j;
 }
 GenOpts GenOpts::from_json(const Json& j0) {
@@ -81,7 +82,7 @@ GenOpts GenOpts::from_json(const Json& j0) {
     o.step_events = j.getb("step_events", o.step_events); o.action_inline_safe = j.getb("action_inline_safe", o.action_inline_safe);
     o.vector_target = static_cast<int>(j.geti("vector_target", 0)); o.units = j.gets("units", "");
     o.fmtout = static_cast<int>(j.geti("fmtout", -1)); o.unifout = static_cast<int>(j.geti("unifout", -1)); o.esmry = j.getb("esmry", false);
-    o.rptonly = j.getb("rptonly", false); o.sumthin = j.getb("sumthin", false); o.date_conditions = j.getb("date_conditions", o.date_conditions); o.nested_parens = j.getb("nested_parens", o.nested_parens); o.stop_safe = j.getb("stop_safe", o.stop_safe); o.cond_well_bias = j.getd("cond_well_bias", 0.0); o.min_wells = static_cast<int>(j.geti("min_wells", 1)); o.reparent_groups = j.getb("reparent_groups", false); o.late_edits = j.getb("late_edits", false); o.geo_kws = j.getb("geo_kws", false); o.tuning_vfp = j.getb("tuning_vfp", false); o.udq_unary_minus = j.getb("udq_unary_minus", false); o.weltarg_safe = j.getb("weltarg_safe", false);   // absent in replay files written before the knob existed
+    o.rptonly = j.getb("rptonly", false); o.sumthin = j.getb("sumthin", false); o.date_conditions = j.getb("date_conditions", o.date_conditions); o.nested_parens = j.getb("nested_parens", o.nested_parens); o.stop_safe = j.getb("stop_safe", o.stop_safe); o.cond_well_bias = j.getd("cond_well_bias", 0.0); o.min_wells = static_cast<int>(j.geti("min_wells", 1)); o.reparent_groups = j.getb("reparent_groups", false); o.late_edits = j.getb("late_edits", false); o.geo_kws = j.getb("geo_kws", false); o.family_snippets = j.getb("family_snippets", false); o.family_static_free = j.getb("family_static_free", false); o.tuning_vfp = j.getb("tuning_vfp", false); o.udq_unary_minus = j.getb("udq_unary_minus", false); o.weltarg_safe = j.getb("weltarg_safe", false);   // absent in replay files written before the knob existed
     return o;
 }
 
@@ -233,6 +234,42 @@ struct Gen {
         k.recs.push_back({"1", "10"}); k.recs.push_back({"10", "20"}); k.recs.push_back({"0", "0.5"}); k.recs.push_back({"100", "200"}); k.recs.push_back({"0"});
         int v = 0;
         for (int g = 1; g <= 2; ++g) for (int w = 1; w <= 2; ++w) for (int t = 1; t <= 2; ++t) { k.recs.push_back({std::to_string(t), std::to_string(w), std::to_string(g), "1", num(50 + off + 5 * (t - 1) + v), num(60 + off + 5 * (t - 1) + v)}); ++v; }
+        return k;
+    }
+
+    Kw family_kw() {
+        // {W}: any well, {P}: a prediction-mode oil producer, {G}: a group below FIELD
+        static const char* lib[] = {
+            "RPTRST\n 'BASIC=3' 'FREQ=2' /\n",
+            "RPTSCHED\n 'FIP=2' 'WELLS=1' /\n",
+            "WLIST\n '*LSTF' 'NEW' '{W}' /\n/\n",
+            "VFPINJ\n 2 2000 'WAT' 'THP' 1* 'BHP' /\n 1 10 /\n 10 20 /\n 1 100 110 /\n 2 120 130 /\n",
+            "GCONINJE\n 'FIELD' 'WATER' 'RATE' 1000 /\n/\n",
+            "GCONPROD\n '{G}' 'ORAT' 500 3* 'RATE' /\n/\n",
+            "LIFTOPT\n 12500 5E-3 0.0 'YES' /\nWLIFTOPT\n '{P}' 'YES' 150000 1.01 1.0 /\n/\nGLIFTOPT\n '{G}' 200000 1* /\n/\n",
+            "WRFTPLT\n '{W}' 'YES' 'NO' 'NO' /\n/\n",
+            "TUNING\n 1 10 /\n /\n /\n",
+            "DRSDT\n 0.003 /\n",
+            "GUIDERAT\n 0 'OIL' 1 0.5 1 1 0 0 'YES' 0.5 /\n",
+            "WGRUPCON\n '{P}' 'YES' 0.5 'OIL' /\n/\n",
+            "GCONSUMP\n '{G}' 10 /\n/\n",
+            "GECON\n '{G}' 10 /\n/\n",
+            "WPAVE\n 0.5 1.0 'WELL' 'OPEN' /\n",
+            "WELPI\n '{P}' 10 /\n/\n",
+            "COMPLUMP\n '{W}' 1* 1* 1* 1* 1 /\n/\n",
+            "WTMULT\n '{P}' 'ORAT' 0.5 /\n/\n",
+            "WVFPEXP\n '{P}' 'EXP' /\n/\n",
+            "GRUPNET\n 'FIELD' 20 5* /\n/\n",
+        };
+        std::string t = lib[rng.below(sizeof lib / sizeof lib[0])];
+        if (o.family_static_free && (t.rfind("LIFTOPT", 0) == 0 || t.rfind("GRUPNET", 0) == 0)) t = "DRSDT\n 0.003 /\n";
+        std::string p; for (auto& w : m.wells) if (w.kind == "OPROD" && !w.history) { p = w.name; break; }
+        std::string g = "FIELD"; for (auto& gg : m.gruptree) if (gg.second == "FIELD") { g = gg.first; break; }
+        Kw k; k.name = "FAMILY";
+        if (t.find("{P}") != std::string::npos && p.empty()) { k.name = "WEFAC"; k.recs.push_back({q(m.wells[0].name), num(efac())}); return k; }
+        auto rep = [&](const std::string& key, const std::string& v) { for (size_t q2 = t.find(key); q2 != std::string::npos; q2 = t.find(key, q2 + v.size())) t.replace(q2, key.size(), v); };
+        rep("{W}", m.wells[rng.below(m.wells.size())].name); rep("{P}", p); rep("{G}", g);
+        k.raw = t; k.recs.push_back({"raw"});
         return k;
     }
 
@@ -407,7 +444,8 @@ struct Gen {
             for (int e = 0; e < ne; ++e) {
                 double u = rng.unit(); Kw k;
                 const WellDef& w = m.wells[rng.below(m.wells.size())];
-                if (o.tuning_vfp && rng.chance(0.15)) k = rng.chance(0.5) ? nextstep_kw() : vfpprod_kw(1 + static_cast<int>(rng.below(3)));
+                if (o.family_snippets && rng.chance(0.25)) k = family_kw();
+                else if (o.tuning_vfp && rng.chance(0.15)) k = rng.chance(0.5) ? nextstep_kw() : vfpprod_kw(1 + static_cast<int>(rng.below(3)));
                 else if (o.geo_kws && rng.chance(0.15)) k = geo_kw();
                 else if (o.late_edits && rng.chance(0.4)) {
                     const double v = rng.unit(); const double diam = m.units == "FIELD" ? 0.5 : m.units == "LAB" ? 10 : 0.2;
@@ -492,6 +530,7 @@ void apply_drops(Model& m, const Json& d) {
         m.wells.erase(std::remove_if(m.wells.begin(), m.wells.end(), [&](const WellDef& w) { return w.name == n; }), m.wells.end());
         auto clean = [&](std::vector<Kw>& v) {
             for (auto& k : v) {
+                if (!k.raw.empty()) { if (k.raw.find("'" + n + "'") != std::string::npos) { k.raw.clear(); k.recs.clear(); } continue; }
                 if (k.name == "WLIST") { for (auto& r : k.recs) r.erase(std::remove(r.begin(), r.end(), q(n)), r.end()); continue; }
                 if (k.name == "COMPSEGS" && !k.recs.empty() && rec_mentions(k.recs[0], n)) { k.recs.clear(); continue; }
                 if (k.name == "WELSEGS" && !k.recs.empty() && rec_mentions(k.recs[0], n)) { k.recs.clear(); continue; }
@@ -538,7 +577,7 @@ std::string deck_text(const Model& m, const DeckOpts& d) {
     const int ncell = m.nx * m.ny * m.nz;
     o << "RUNSPEC\nTITLE\n  verif generated model\nDIMENS\n  " << m.nx << " " << m.ny << " " << m.nz << " /\nOIL\nWATER\nGAS\nDISGAS\n" << m.units << "\n";
     o << "START\n  " << m.sd << " '" << month_name(m.sm) << "' " << m.sy << " /\n";
-    o << "EQLDIMS\n/\nTABDIMS\n/\nWELLDIMS\n  20 10 12 20 /\nUDQDIMS\n  50 25 0 50 50 0 0 50 0 20 /\nACTDIMS\n  8 20 80 8 /\nWSEGDIMS\n  4 12 4 /\n";
+    o << "EQLDIMS\n/\nTABDIMS\n/\nWELLDIMS\n  20 10 12 20 6* 4 /\nUDQDIMS\n  50 25 0 50 50 0 0 50 0 20 /\nACTDIMS\n  8 20 80 8 /\nWSEGDIMS\n  4 12 4 /\n";
     if (m.unifout) o << "UNIFOUT\n";
     if (m.fmtout) o << "FMTOUT\n";
     if (d.restart_step >= 0) { if (m.unifout) o << "UNIFIN\n"; if (m.fmtout) o << "FMTIN\n"; }
